@@ -80,7 +80,7 @@ func c13PubGen(r *verifh.Rng) []verifh.Section {
 			return out
 		}
 		slow := 0 // operations that wait for the publisher's one-second ticker
-		faulty := i%4 == 1 // sections with failing etcd calls (each failed attempt of doKeepAlive costs one real second)
+		faulty := i%verifh.Scale(4, 6) == 1 // sections with failing etcd calls (each failed attempt of doKeepAlive costs one real second)
 		fault := func(kinds ...string) string {
 			if !faulty || !r.Chance(1, 2) {
 				return ""
@@ -128,6 +128,7 @@ func c13PubGen(r *verifh.Rng) []verifh.Section {
 				f := ""
 				if kind == "pub" {
 					if f = fault([]string{"grant", "put", "ka"}[(i/4+len(pubs))%3]); f != "" {
+						f = f[:len(f)-1] + "1" // KeepAlive() is one attempt: exactly one call fails
 						pubs[p].state = "failed" // KeepAlive returned an error: no goroutine serves Pause / Resume
 					}
 				}
@@ -300,6 +301,9 @@ func TestVerifC13Pub(t *testing.T) {
 				if op[0] != "pub" && pubs[verifh.Atoi(op[1])] == nil {
 					return "bad-op"
 				}
+				if (op[0] == "pub" || fkind == "revoke") && fn != 1 {
+					return "bad-op" // one attempt / one revocation: a second armed failure would hit a later operation
+				}
 				ses.Etcd.ArmFault(fkind, fn)
 			}
 			extra := ""
@@ -349,7 +353,7 @@ func TestVerifC13Pub(t *testing.T) {
 				running[verifh.Atoi(op[1])] = true
 				if err := p.KeepAlive(); err != nil {
 					if fn == 0 {
-						panic(err)
+						dead = true // no keep-alive goroutine although nothing failed: Pause / Resume would block for ever
 					}
 					running[verifh.Atoi(op[1])] = false
 					extra = " err=1"
